@@ -22,6 +22,7 @@ import (
 	"sync/atomic"
 
 	"github.com/B1NARY-GR0UP/originium/pkg/logger"
+	"github.com/B1NARY-GR0UP/originium/pkg/verifhook"
 	"github.com/B1NARY-GR0UP/originium/types"
 )
 
@@ -202,6 +203,7 @@ func (db *DB) rawset(entry types.Entry) {
 		db.memtable = imt.reset()
 		db.mu.Unlock()
 
+		verifhook.Point("rotate.send", db.dir)
 		db.flushC <- imt
 	}
 }
@@ -224,8 +226,11 @@ LOOP:
 	for {
 		select {
 		case imt := <-db.flushC:
+			verifhook.Point("flusher.recv", db.dir)
 			db.flushImmutable(imt)
+			verifhook.Point("flusher.flushed", db.dir)
 			db.manager.checkAndCompact()
+			verifhook.Point("flusher.compacted", db.dir)
 
 			// drop the memtable that has just been flushed (the oldest one), not the newest
 			db.mu.Lock()
@@ -236,6 +241,7 @@ LOOP:
 				}
 			}
 			db.mu.Unlock()
+			verifhook.Point("flusher.removed", db.dir)
 
 			if closed && len(db.flushC) == 0 {
 				break LOOP
